@@ -143,6 +143,7 @@ class HumanoidStandup(AbstractMujocoEnv[Float[Array, "..."], Float[Array, "..."]
 
         data = mjx.make_data(self.model)
         data = data.replace(qpos=qpos, qvel=qvel)
+        data = mjx.forward(self.model, data)
 
         return MujocoEnvState(sim_state=data, t=jnp.array(0.0))
 
